@@ -68,7 +68,10 @@ def check_roundtrip(ctx, case) -> None:
         arr = np.array(ys, dtype=float)
         if mode == "2d" and len(ys) % 2 == 0:
             arr = arr.reshape(2, len(ys) // 2)
+        keep = arr.copy()
         got = t.tsukamoto(arr)
+        ctx.check(bool(np.array_equal(arr, keep, equal_nan=True)), "argument-mutated", case,
+                  {"before": keep.reshape(-1).tolist()[:6], "after": arr.reshape(-1).tolist()[:6]})
         ctx.check(np.shape(got) == arr.shape, "array-shape", case, {"got": list(np.shape(got))})
         for i, z in enumerate(np.asarray(got, dtype=float).reshape(-1)):
             ok = z == zs[i] or abs(z - zs[i]) <= 2 * math.ulp(max(abs(z), abs(zs[i])))
